@@ -39,7 +39,31 @@ with the reason it was not repaired.
 | id | property | status | what fails |
 |---|---|---|---|
 """ + "\n".join(r2) + "\n\n" + "\n".join(f"* {f['id']} not repaired because: {f['why_not_fixed']}" for f in kf if f['status'] == 'open') + "\n"
-block = "<!-- AUTO-BEGIN -->\n" + sec11 + "\n" + sec12 + "<!-- AUTO-END -->\n"
+import sys
+sys.path.insert(0, '/verif')
+from props import PROPS, CLAIMED
+r3 = []
+for pid in sorted(PROPS):
+    pc = PROPS[pid]
+    ev = {}
+    try:
+        ev = json.load(open(f'/verif/evidence/{pid}.json'))
+    except Exception:
+        pass
+    cov = ev.get('coverage', {})
+    r3.append(f"| {pid} | {'yes' if pid in CLAIMED else 'no'} | {pc['level']} | {','.join(pc['quick']['builds'])} | {','.join(pc['thorough']['builds'])} | {ev.get('tier','-')}: {cov.get('cases_run','-')} cases, {cov.get('evaluations','-')} evaluations, {cov.get('distinct_nontrivial','-')} distinct non-trivial, {ev.get('wall_s','-')} s | {pc['technique'].replace('|','/')} |")
+sec13 = """## 13. Monitors as built
+
+One row per property: whether it is claimed in MANIFEST.json, the evidence level,
+the instrumented builds of each tier (section 3; UBG = UBC without
+target-cpu=native, used as valgrind base), the numbers of the last run whose
+evidence file is on disk, and the deciding technique. The rule that defines
+`distinct_nontrivial` is in `propsd/CNN.py` and is copied into every evidence file.
+
+| id | claimed | level | quick builds | thorough builds | last evidence on disk | technique |
+|---|---|---|---|---|---|---|
+""" + "\n".join(r3) + "\n"
+block = "<!-- AUTO-BEGIN -->\n" + sec11 + "\n" + sec12 + "\n" + sec13 + "<!-- AUTO-END -->\n"
 if '<!-- AUTO-BEGIN -->' in s:
     s = re.sub(r'<!-- AUTO-BEGIN -->.*<!-- AUTO-END -->\n', lambda _: block, s, flags=re.S)
 else:
